@@ -81,6 +81,11 @@ def cmd_run(args):
     supplemental_data = load_supplemental_sources(config, config_dir)
     if not args.quiet and supplemental_data:
         print(f"  Supplemental sources: {', '.join(supplemental_data.keys())}")
+    if not args.quiet:
+        # A supplemental source that could not be loaded silently changes what rule expressions see
+        for source in data_sources:
+            if source.get('_supplemental', False) and source.get('name', '').lower() not in supplemental_data:
+                print(f"  {source.get('name', 'unknown')}: Supplemental source not loaded (missing, unreadable or empty) - {source.get('file', '')}")
 
     # Parse transactions from configured data sources (skip supplemental)
     all_txns = []
